@@ -44,6 +44,17 @@ def cases(draw):
             if d:
                 ops.append(["deliver", d[0], draw(st.integers(0, 1000)) if d[1] else 0])
         gone |= leaving
+        # replica publications of surviving agents for computations that do not move in this event (replication is
+        # re-run after every repair): publish / withdraw / publish again, with deliveries in between
+        for ci in [c for c in range(nc) if c not in moved]:
+            for a in draw(st.lists(st.sampled_from([x for x in range(na) if x not in gone] or [0]), max_size=2,
+                                   unique=True)):
+                if a in gone:
+                    continue
+                for pub in draw(st.sampled_from([[True], [True, False], [True, False, True], [False, True]])):
+                    ops.append(["replica", ci, a, pub])
+                    if draw(st.integers(0, 2)) == 0:
+                        ops.append(["deliver", draw(st.integers(1, 3)), draw(st.integers(0, 1000))])
         ops.append(["drain"])
     return {"kind": "dirsim", "agents": na, "comps": comps, "ops": ops,
             "picks": draw(st.lists(st.integers(0, 1000), max_size=40))}
@@ -53,7 +64,8 @@ def run_case(case):
     na = case["agents"]
     anames = ["a%d" % i for i in range(na)]
     cnames = ["v%d" % i for i in range(len(case["comps"]))]
-    labels = ["dirsim", "moves:%d" % sum(1 for o in case["ops"] if o[0] == "move")]
+    labels = ["dirsim", "moves:%d" % sum(1 for o in case["ops"] if o[0] == "move"),
+              "replica-ops:%d" % min(4, sum(1 for o in case["ops"] if o[0] == "replica"))]
     try:
         with under_test():
             from pydcop.infrastructure.discovery import Directory, Discovery
@@ -102,18 +114,34 @@ def run_case(case):
                 disc[h].register_computation(cn, h, "addr_" + h)
                 host[cn] = h
         drain()
+        # an agent that will hold a replica of a computation knows that computation (every caller in the code base
+        # makes sure of it): it subscribes to it, like the declared subscribers
+        subs_of = [list(c["subs"]) for c in case["comps"]]
+        for o in case["ops"]:
+            if o[0] == "replica" and o[2] not in subs_of[o[1]]:
+                subs_of[o[1]].append(o[2])
         with under_test():
-            for cn, c in zip(cnames, case["comps"]):
-                for s in c["subs"]:
+            for cn, subs in zip(cnames, subs_of):
+                for s in subs:
                     disc[anames[s]].subscribe_computation(cn)
         drain()
         departed = set()
+        holds = {}          # computation -> {agent: last replica operation was a publication}
         for o in case["ops"]:
             if o[0] == "deliver":
                 deliver(o[1], o[2] if o[2] else None)
                 continue
             if o[0] == "drain":
                 drain()
+                continue
+            if o[0] == "replica":
+                cn, a = cnames[o[1]], anames[o[2]]
+                with under_test():
+                    if o[3]:
+                        disc[a].register_replica(cn, a)
+                    else:
+                        disc[a].unregister_replica(cn, a)
+                holds.setdefault(cn, {})[a] = bool(o[3])
                 continue
             cn, new = cnames[o[1]], anames[o[2]]
             old = host[cn]
@@ -135,7 +163,7 @@ def run_case(case):
         if net.errors:
             return Outcome(False, "[dirsim] a discovery handler raised: %r" % (net.errors[0][2:5],), nontrivial, labels,
                            info={"kind": "dirsim"})
-        for cn, c in zip(cnames, case["comps"]):
+        for cn, subs in zip(cnames, subs_of):
             try:
                 with under_test():
                     got = directory.computation_agent(cn)
@@ -145,7 +173,17 @@ def run_case(case):
                 return Outcome(False, "[dirsim] %s was re-hosted on %s (its former host un-published it under its own "
                                "name) but once every message is delivered the directory says %s" % (cn, host[cn], got),
                                nontrivial, labels, info={"kind": "dirsim", "side": "directory"})
-            for s in c["subs"]:
+            exp = sorted(a for a, h in holds.get(cn, {}).items() if h)
+            try:
+                with under_test():
+                    got = sorted(ddisc.replica_agents(cn))
+            except UnderTestError as e:
+                got = "<%s>" % e.exc_type
+            if got != exp:
+                return Outcome(False, "[dirsim] replicas of %s: the last publications of the agents leave %r, the "
+                               "directory says %r" % (cn, exp, got), nontrivial, labels,
+                               info={"kind": "dirsim", "side": "replicas"})
+            for s in subs:
                 a = anames[s]
                 if a in departed:
                     continue
